@@ -119,11 +119,57 @@ def _rm_block(bl, lo, bo, ret_to):
     elif k == "assert":
         t["cond"] = _rm_op(t["cond"], lo)
     elif k == "yield":
-        t["value"] = _rm_op(t["value"], lo)
+        # (an inlined coroutine body is read as if it never suspended)
+        t = {"line": t.get("line"), "k": "goto", "t": t["t"]}
     elif k == "ret":
         t = {"line": t.get("line"), "k": "goto", "t": ret_to} if ret_to is not None else {"line": t.get("line"), "k": "unreachable"}
     nb["t"] = t
     return nb
+
+
+def _awaited_new_coroutine(crate, known, blocks, op):
+    """The poll receiver `op` of a `.await`: follow it back (Pin::new_unchecked(&mut into_future(x))) to a coroutine aggregate of an async helper that
+    was introduced after the freeze. Returns (coroutine defpath, local holding the aggregate) or None."""
+    if not (isinstance(op, list) and op and op[0] in ("m", "c")) or op[1][1]:
+        return None
+    loc = op[1][0]
+    for _ in range(10):
+        found = None
+        for bl in blocks:
+            if bl.get("cleanup"):
+                continue
+            for st in bl["s"]:
+                if st[0] == "A" and st[1] == [loc, []]:
+                    found = ("A", st[2])
+            t = bl["t"]
+            if t.get("k") == "call" and t.get("dest") == [loc, []]:
+                found = ("C", t)
+        if found is None:
+            return None
+        if found[0] == "A":
+            rv = found[1]
+            if rv[0] == "agg" and isinstance(rv[1], dict) and rv[1].get("coroutine"):
+                d = rv[1]["coroutine"]
+                m = re.match(r"^(.*)::\{closure#0\}$", d)
+                if m and m.group(1) in crate.by_def and m.group(1) not in known and d in crate.by_def:
+                    return d, loc
+                return None
+            if rv[0] == "use" and rv[1][0] in ("m", "c") and not rv[1][1][1]:
+                loc = rv[1][1][0]
+                continue
+            if rv[0] == "ref" and not [x for x in rv[2][1] if x != "*"]:
+                loc = rv[2][0]
+                continue
+            return None
+        t = found[1]
+        nm = (t.get("callee") or {}).get("name")
+        if nm in ("new_unchecked", "into_future", "as_mut", "get_mut", "new") and t.get("args"):
+            a = t["args"][0]
+            if a[0] in ("m", "c") and not a[1][1]:
+                loc = a[1][0]
+                continue
+        return None
+    return None
 
 
 def inline_new_helpers(crate, raw, defpath, depth=3):
@@ -173,6 +219,42 @@ def inline_new_helpers(crate, raw, defpath, depth=3):
                 nb["t"] = {"line": line, "k": "goto", "t": entry_blk}
                 blocks[i] = nb
                 inlined.append(d)
+        elif isinstance(cal, dict) and (cal.get("name") == "poll" or (cal.get("via") or {}).get("name") == "poll") and budget > 0 and len(t.get("args", [])) == 2 \
+                and not blocks[i].get("cleanup"):
+            # `helper(..).await` where helper is an async fn extracted after the freeze: the body of its future runs here
+            hit = _awaited_new_coroutine(crate, known, blocks, t["args"][0])
+            if hit is None and d and re.match(r"^(.*)::\{closure#0\}$", d) and d in crate.by_def and d[:-len("::{closure#0}")] in crate.by_def and d[:-len("::{closure#0}")] not in known:
+                hit = (d, None)
+            if hit is not None and out is None:
+                out = {"def": raw.get("def"), "argc": raw["argc"], "locals": list(raw["locals"]), "vars": [list(v) if isinstance(v, list) else v for v in raw["vars"]], "blocks": [dict(b) for b in raw["blocks"]]}
+                blocks = out["blocks"]
+            if hit is not None and inlined.count(hit[0]) < 4:
+                try:
+                    craw = crate._raw(hit[0])
+                except Exception:
+                    craw = None
+                if craw is not None and len(craw["blocks"]) <= 600 and craw["argc"] == 2:
+                    budget -= 1
+                    lo = len(out["locals"])
+                    out["locals"].extend(craw["locals"])
+                    for nm_, pl_ in craw["vars"]:
+                        out["vars"].append([nm_, _rm_place(pl_, lo)])
+                    bo = len(blocks) + 2
+                    line = t.get("line")
+                    dest = t.get("dest")
+                    entry_blk, ret_blk = len(blocks), len(blocks) + 1
+                    self_op = ["c", [hit[1], []]] if hit[1] is not None else t["args"][0]
+                    blocks.append({"s": [["A", [lo + 1, []], ["use", self_op], line], ["A", [lo + 2, []], ["use", t["args"][1]], line]], "t": {"line": line, "k": "goto", "t": bo}})
+                    cont = t.get("t")
+                    ready = ["agg", {"adt": "core::task::poll::Poll", "variant": "Ready", "vidx": 0, "fields": ["0"]}, [["m", [lo, []]]]]
+                    blocks.append({"s": ([["A", dest, ready, line]] if dest is not None else []),
+                                   "t": ({"line": line, "k": "goto", "t": cont} if isinstance(cont, int) else {"line": line, "k": "unreachable"})})
+                    for bl in craw["blocks"]:
+                        blocks.append(_rm_block(bl, lo, bo, ret_blk))
+                    nb = dict(blocks[i])
+                    nb["t"] = {"line": line, "k": "goto", "t": entry_blk}
+                    blocks[i] = nb
+                    inlined.append(hit[0])
         i += 1
     return (out or raw), inlined
 
@@ -280,6 +362,25 @@ class Crate:
                 continue
             if b["kind"] in ("Closure", "SyntheticCoroutineBody") and b["def"].startswith(owner_def + "::{"):
                 out.append(self.body(b))
+        # closures (and the bodies of async helpers) that came to live in a helper extracted after the freeze still belong to this function
+        if recursive and owner_def in self.by_def and self.transparent_helpers():
+            try:
+                seen = set()
+                work = [owner_def] + [x.defpath for x in out]
+                while work:
+                    d = work.pop()
+                    if d in seen:
+                        continue
+                    seen.add(d)
+                    for h in getattr(self.body(d), "inlined_helpers", []) or []:
+                        for b in self.index:
+                            if "promoted" not in b and b["kind"] in ("Closure", "SyntheticCoroutineBody") and b["def"].startswith(h + "::{") and b["def"] not in seen:
+                                bb = self.body(b)
+                                if bb not in out:
+                                    out.append(bb)
+                                work.append(b["def"])
+            except Exception:
+                pass
         return out
 
     def adt(self, suffix):
@@ -2179,10 +2280,36 @@ def decision_paths(body, start, stop, max_paths=20000, value_switch=None):
 # describing operands and branch conditions
 
 
+def _try_source(body, local):
+    """`x?`: the local holding `Try::branch(x)` -> (operand x, name of x's success variant, name of its failure variant), else None"""
+    if 1 <= local <= body.argc:
+        return None
+    d = body.single_def(local)
+    if d is None or d[0] != "call":
+        return None
+    c = d[2]
+    if c.via_name != "branch" or not c.args or "Try" not in (c.trait or c.defpath or ""):
+        return None
+    a = c.args[0]
+    pl = op_place(a)
+    ty = body.locals[pl[0]] if pl is not None and not pl[1] and pl[0] < len(body.locals) else ""
+    if ty.startswith("core::option::Option<"):
+        return a, "Some", "None"
+    if ty.startswith("core::result::Result<"):
+        return a, "Ok", "Err"
+    return None
+
+
 def describe_place(body, place, depth=0):
     local, projs = place
     if depth > 28:
         return "…"
+    # `x?` reads like the pattern it stands for: branch(x)<Continue>.0 is x<Some>.0 / x<Ok>.0 (so `let v = x?;` and `if let Some(v) = x` describe alike)
+    if len(projs) >= 2 and isinstance(projs[0], list) and projs[0][0] == "d" and projs[0][1] == "Continue" and isinstance(projs[1], list) and projs[1][0] == "f" and projs[1][1] == 0:
+        ts = _try_source(body, local)
+        if ts is not None and depth < 20:
+            return describe_operand(body, ts[0], depth + 1) + "<%s>.0" % ts[1] + "".join(
+                ("." + x[2]) if isinstance(x, list) and x[0] == "f" else ("<" + x[1] + ">") if isinstance(x, list) and x[0] == "d" else "" for x in projs[2:])
     fields = place_fields(place)
     variants = place_variants(place)
     base = None
@@ -2300,6 +2427,10 @@ def switch_desc(body, b):
     if si is None:
         return None
     if si["kind"] == "disc":
+        pl = si["place"]
+        ts = _try_source(body, pl[0]) if not pl[1] else None
+        if ts is not None:
+            return "disc(%s)" % describe_operand(body, ts[0])
         return "disc(%s)" % describe_place(body, si["place"])
     if si["kind"] == "callresult":
         return describe_call(body, si["call"])
@@ -2316,6 +2447,10 @@ def edge_label(body, a, s):
     if si["kind"] == "disc":
         ve = body.variant_edges(a)
         names = sorted(n for n, t in ve.items() if t == s)
+        pl = si["place"]
+        ts = _try_source(body, pl[0]) if not pl[1] else None
+        if ts is not None:
+            names = sorted({"Continue": ts[1], "Break": ts[2]}.get(n, n) for n in names)
         return "|".join(names) if names else "otherwise"
     vals = [v for v, t in si["raw_arms"].items() if t == s]
     if vals:
